@@ -86,7 +86,7 @@ def o08_3(tier):
     return [("two-cells-shared-path", h)]
 
 
-@obligation("O08.4", ["C08", "C07", "C14"], ["forsys.frames:Frame.__post_init__", "forsys.edge:BigEdge.__post_init__", VE + "get_border_edge",
+@obligation("O08.4", ["C08", "C07", "C14", "C04"], ["forsys.frames:Frame.__post_init__", "forsys.edge:BigEdge.__post_init__", VE + "get_border_edge",
                                             "forsys.frames:Frame.get_external_edges_ids", "forsys.frames:Frame.get_big_edge_by_cells", "forsys.frames:Frame.get_big_edges"],
             "frame construction on concrete topologies: interfaces = the maximal junction-to-junction paths, each once; the three copies of the "
             "internal/external predicate agree and equal the statement's; internal interfaces separate exactly two cells; mesh-edge lists follow the path; "
